@@ -36,21 +36,24 @@ def rasterize(shapes, out_shape=None, fill=0, out=None, transform=None, all_touc
             geom, val = item
         else:
             geom, val = item, default_value
-        if not isinstance(geom, shp.Polygon):
-            raise OutsideModel("rasterize of a non-rectangle is GDAL scan conversion")
-        r = geom.rect()
-        if r is None:
-            raise OutsideModel("rasterize of a non-rectangle is GDAL scan conversion")
-        x0, y0, x1, y1 = r
-        for rr in range(rows):
-            for cc in range(cols):
-                inside = (x0 < cc + 0.5) and (cc + 0.5 < x1) and (y0 < rr + 0.5) and (rr + 0.5 < y1)
-                if inside:
-                    grid[rr][cc] = val
-                elif all_touched:
-                    touches = (x0 <= cc + 1) and (cc <= x1) and (y0 <= rr + 1) and (rr <= y1)
-                    if touches and _choice():
+        # a collection / multi-polygon is burnt part by part with the one value
+        parts = list(geom.geoms) if isinstance(geom, (shp.GeometryCollection, shp.MultiPolygon)) else [geom]
+        for part in parts:
+            if not isinstance(part, shp.Polygon):
+                raise OutsideModel("rasterize of a non-rectangle is GDAL scan conversion")
+            r = part.rect()
+            if r is None:
+                raise OutsideModel("rasterize of a non-rectangle is GDAL scan conversion")
+            x0, y0, x1, y1 = r
+            for rr in range(rows):
+                for cc in range(cols):
+                    inside = (x0 < cc + 0.5) and (cc + 0.5 < x1) and (y0 < rr + 0.5) and (rr + 0.5 < y1)
+                    if inside:
                         grid[rr][cc] = val
+                    elif all_touched:
+                        touches = (x0 <= cc + 1) and (cc <= x1) and (y0 <= rr + 1) and (rr <= y1)
+                        if touches and _choice():
+                            grid[rr][cc] = val
     return npl.ndarray(grid, (rows, cols), dtype)
 
 
